@@ -81,7 +81,10 @@ func verifyFunction(p *Program, fn *ssa.Function, c *FuncContract, emit func(*Ob
 		if err != nil {
 			fe.fail("axiom %s: %v", ax.Name, err)
 		}
-		st.assume(t, "axiom "+ax.Name)
+		// An axiom takes part in a query only if the query mentions one of the spec
+		// functions the axiom is about (see buildQuery): ground facts about symbols a
+		// query never uses were seen to flip a 0.05 s proof into a timeout.
+		fe.axioms = append(fe.axioms, lazyAxiom{name: ax.Name, term: t, syms: specSymbols(t.S)})
 	}
 	// parameters
 	fe.params = map[string]Binding{}
